@@ -137,6 +137,110 @@ func runSelfTest(prop, repo, findings, spec string) []selfTestResult {
 	return out
 }
 
+type benignMeta struct {
+	ID       string   `json:"id"`
+	Relevant []string `json:"relevant_properties"`
+}
+
+// runBenignTest applies every kept behaviour-preserving refactoring that touches an anchor file of
+// this property to a scratch copy of the repository and requires silence.
+func runBenignTest(prop, repo, findings, spec string) []selfTestResult {
+	dir := filepath.Join(filepath.Dir(seededDir()), "benign")
+	ents, err := os.ReadDir(dir)
+	if err != nil {
+		return nil
+	}
+	type job struct {
+		id, patch string
+	}
+	var jobs []job
+	for _, e := range ents {
+		b, err := os.ReadFile(filepath.Join(dir, e.Name(), "meta.json"))
+		if err != nil {
+			continue
+		}
+		var m benignMeta
+		if json.Unmarshal(b, &m) != nil {
+			continue
+		}
+		for _, p := range m.Relevant {
+			if p == prop {
+				jobs = append(jobs, job{m.ID, filepath.Join(dir, e.Name(), "patch.diff")})
+			}
+		}
+	}
+	sort.Slice(jobs, func(i, j int) bool { return jobs[i].id < jobs[j].id })
+	exe, _ := os.Executable()
+	out := make([]selfTestResult, len(jobs))
+	sem := make(chan struct{}, 8)
+	var wg sync.WaitGroup
+	for i, j := range jobs {
+		wg.Add(1)
+		go func(i int, j job) {
+			defer wg.Done()
+			sem <- struct{}{}
+			defer func() { <-sem }()
+			res := selfTestResult{Seed: j.id}
+			scratch, err := os.MkdirTemp("", "lunarlint-benign-")
+			if err != nil {
+				res.Outcome = "skipped: " + err.Error()
+				out[i] = res
+				return
+			}
+			defer os.RemoveAll(scratch)
+			wt := filepath.Join(scratch, "repo")
+			if b, err := exec.Command("cp", "-a", repo, wt).CombinedOutput(); err != nil {
+				res.Outcome = "skipped: copy failed: " + strings.TrimSpace(string(b))
+				out[i] = res
+				return
+			}
+			os.RemoveAll(filepath.Join(wt, ".git"))
+			ap := exec.Command("git", "apply", "--unsafe-paths", j.patch)
+			ap.Dir = wt
+			if b, err := ap.CombinedOutput(); err != nil {
+				res.Outcome = "skipped: the refactoring no longer applies to this tree: " + head(strings.TrimSpace(string(b)), 120)
+				out[i] = res
+				return
+			}
+			cmd := exec.Command(exe, "-prop", prop, "-tier", "quick", "-repo", wt, "-evidence-dir", filepath.Join(scratch, "ev"), "-findings", findings, "-spec", spec)
+			cmd.Env = append(os.Environ(), "LUNARLINT_NO_SELFTEST=1")
+			b, _ := cmd.CombinedOutput()
+			rep := map[string]bool{}
+			for _, line := range strings.Split(string(b), "\n") {
+				if m := violationLine.FindStringSubmatch(line); m != nil {
+					rep[m[1]] = true
+				}
+			}
+			res.Reported = sortedKeys(rep)
+			if len(rep) == 0 {
+				res.Outcome = "quiet"
+			} else {
+				res.Outcome = "false alarm"
+			}
+			out[i] = res
+		}(i, j)
+	}
+	wg.Wait()
+	return out
+}
+
+func printBenignTest(prop string, rs []selfTestResult) {
+	quiet, alarm, skip := 0, 0, 0
+	for _, r := range rs {
+		switch {
+		case r.Outcome == "quiet":
+			quiet++
+		case r.Outcome == "false alarm":
+			alarm++
+			fmt.Printf("SELFTEST-FALSE-ALARM property=%s refactoring=%s rules=%v\n", prop, r.Seed, r.Reported)
+		default:
+			skip++
+			fmt.Printf("SELFTEST-SKIP property=%s refactoring=%s %s\n", prop, r.Seed, r.Outcome)
+		}
+	}
+	fmt.Printf("selftest %s: %d behaviour-preserving refactorings quiet, %d raised an alarm, %d skipped\n", prop, quiet, alarm, skip)
+}
+
 func printSelfTest(prop string, rs []selfTestResult) {
 	det, miss, skip := 0, 0, 0
 	for _, r := range rs {
